@@ -160,7 +160,7 @@ fn candidate(prop: &str, r: &mut StdRng, pool: &mut Pool) -> (usize, Vec<Value>)
                     _ => r.gen_range(0..=(t.min(1 << 16) / 2) as usize),
                 })
                 .collect();
-            let tail = if n == 5 { ["hint", "none"][r.gen_range(0..2)] } else { ["count", "last", "hint", "none"][r.gen_range(0..4)] };
+            let tail = if n == 5 { ["hint", "none"][r.gen_range(0..2)] } else { ["count", "last", "hint", "none", "fold", "min", "max"][r.gen_range(0..7)] };
             (n, vec![json!({"op": "iter_prog", "n": n, "ks": ks, "tail": tail})])
         }
         "C08" => {
@@ -413,8 +413,9 @@ fn suspicious(op: &Value, ev: &Value, slots: &[Option<naive::Tab>]) -> bool {
             let bits = |v: &Value| -> u128 { v.as_array().map(|a| a.iter().fold(0u128, |m, x| m | (1u128 << x.as_u64().unwrap()))).unwrap_or(0) };
             let tl = &ev["r"]["tail"];
             match op["tail"].as_str().unwrap() {
-                "count" => bits(&tl["count"]) != left,
-                "last" => item_bad(&tl["last"], if left > 0 { Some(total - 1) } else { None }),
+                "count" | "fold" => bits(&tl["count"]) != left,
+                "last" | "max" => item_bad(&tl["last"], if left > 0 { Some(total - 1) } else { None }),
+                "min" => item_bad(&tl["last"], if left > 0 { Some(cur) } else { None }),
                 "hint" => bits(&tl["lo"]) > left || (tl["has_hi"] == true && bits(&tl["hi"]) < left),
                 _ => false,
             }
